@@ -206,9 +206,16 @@ def work(args):
                 skip = getattr(prop, "model_skip", None)
                 full, allouts = cf["full"], cf["allouts"]
 
+                nocmp = getattr(prop, "model_nocompare", None)
+
                 def skipped(l):
                     return l.startswith("pollute") or (skip and skip(l))
-                dis = [i for i, (a, b) in enumerate(zip(allouts, mo_full)) if not skipped(full[i]) and not same(a, b)]
+
+                def not_compared(l):
+                    # model_skip: the model cannot compute the line; model_nocompare: it can, but the property leaves
+                    # the exact answer open (the oracle judges both sides instead)
+                    return skipped(l) or (nocmp and nocmp(l))
+                dis = [i for i, (a, b) in enumerate(zip(allouts, mo_full)) if not not_compared(full[i]) and not same(a, b)]
                 if len(allouts) != len(mo_full):
                     dis.append(min(len(allouts), len(mo_full)))
                 if dis:
